@@ -3,7 +3,7 @@ package hx
 // RouterEnv: the REAL router started in-process (router.VerifRun) with loopback listeners, in front of
 // scripted fake upstream servers (UDP+TCP on one port each) run by the harness.
 //
-// cfgspec (one token, no spaces):  U=<kinds>;E=<0|1>;S=<set>,<set>..;R=<rule>,<rule>..[;C=<mem_size>][;L=<limit>:<burst>][;M=<maxconc>]
+// cfgspec (one token, no spaces):  U=<kinds>;E=<0|1>;S=<set>,<set>..;R=<rule>,<rule>..[;C=<mem_size>][;L=<limit>:<burst>][;M=<maxconc>][;I=<idle_timeout s of tcp/gnet/tls>]
 //   kinds : one letter per upstream: u = udp://, t = tcp://, p = tcp+pipeline://
 //   set   : entries joined by '+': f.<hex raw name> (full:) | d.<hex raw name> (domain:) | '-' for the empty set
 //   rule  : <set idx|->:<reverse 0|1>:<reject>:<upstream idx|->
@@ -403,6 +403,10 @@ func NewRouterEnv(spec string) (*RouterEnv, error) {
 	if m := parts["M"]; m != "" {
 		maxc, _ = strconv.Atoi(m)
 	}
+	idleSec := 0
+	if v := parts["I"]; v != "" {
+		idleSec, _ = strconv.Atoi(v)
+	}
 	kinds := append([]string(nil), ListenerKinds...)
 	if parts["T"] == "1" {
 		kinds = append(kinds, TlsListenerKinds...)
@@ -422,6 +426,9 @@ func NewRouterEnv(spec string) (*RouterEnv, error) {
 			sc.Udp.MultiRoutes = true
 		}
 		sc.Tcp.MaxConcurrentQueries = int32(maxc)
+		if k == "tcp" || k == "gnet" || k == "tls" {
+			sc.IdleTimeout = idleSec // I=<seconds>: idle_timeout of the stream listeners (absent/0 = the default)
+		}
 		if k == "http" || k == "fasthttp" || k == "https" {
 			sc.Http.ClientAddrHeader = "X-Verif-Client"
 		}
